@@ -547,6 +547,7 @@ func init() {
 		ex.inAtomic = true
 		defer func() { ex.inAtomic = false }()
 		ex.atomicAccess(lv)
+		ex.interference(st, lv)
 		return ex.load(st, lv)
 	})
 	reg("sync/atomic.CompareAndSwapInt32", func(ex *Exec, fr *Frame, st *State, reach string, a []Val, sig *types.Signature, pos token.Pos) Val {
@@ -554,6 +555,7 @@ func init() {
 		ex.inAtomic = true
 		defer func() { ex.inAtomic = false }()
 		ex.atomicAccess(lv)
+		ex.interference(st, lv)
 		v := ex.load(st, lv).term()
 		ok := ex.sc.define("cas", sBool, mkEq(v, a[1].term()))
 		ex.checkFrame(fr, st, reach, lv, pos)
@@ -1142,6 +1144,143 @@ func (ex *Exec) regexpLayout(re *syntax.Regexp, s, isNil string, begin, end []st
 	if exact {
 		ex.sc.assert(mkImp(mkNot(isNil), mkEq(end[0], cur)))
 	}
+	ex.regexpPreference(re, s, isNil, begin, end)
+}
+
+// regexpPreference: leftmost-first choice for the shape  ... (G) (C+) $  where G
+// has a small finite language. The match found has the first alternative of G
+// (in preference order) for which the rest of the pattern matches; so for the
+// chosen alternative a_k and every earlier a_j: a_j is not at that position, or
+// the rest after a_j is empty (C+ cannot match). When a_j is shorter than a_k
+// this needs the extra characters of a_k to be in C, which is checked on the
+// literals.
+func (ex *Exec) regexpPreference(re *syntax.Regexp, s, isNil string, begin, end []string) {
+	n := len(re.Sub)
+	if n < 3 || re.Sub[n-1].Op != syntax.OpEndText || re.Sub[n-2].Op != syntax.OpCapture || re.Sub[n-3].Op != syntax.OpCapture {
+		return
+	}
+	rest := re.Sub[n-2].Sub[0]
+	if (rest.Op != syntax.OpPlus && rest.Op != syntax.OpStar) || rest.Sub[0].Op != syntax.OpCharClass {
+		return
+	}
+	minRest := 1
+	if rest.Op == syntax.OpStar {
+		minRest = 0
+	}
+	cls := rest.Sub[0]
+	inClass := func(b byte) bool {
+		for i := 0; i+1 < len(cls.Rune); i += 2 {
+			if rune(b) >= cls.Rune[i] && rune(b) <= cls.Rune[i+1] {
+				return true
+			}
+		}
+		return false
+	}
+	g := re.Sub[n-3].Cap
+	alts, ok := enumPref(re.Sub[n-3].Sub[0])
+	if !ok || len(alts) < 2 || len(alts) > 32 {
+		return
+	}
+	el := app("ssub", s, begin[g], end[g])
+	prefixAt := func(lit string) string {
+		cs := []string{mkCmp("<=", mkAdd(begin[g], num(int64(len(lit)))), slen(s))}
+		for i := 0; i < len(lit); i++ {
+			cs = append(cs, mkEq(app("sat", s, mkAdd(begin[g], num(int64(i)))), num(int64(lit[i]))))
+		}
+		return mkAnd(cs...)
+	}
+	var anyAlt []string
+	for _, ak := range alts {
+		anyAlt = append(anyAlt, mkAnd(mkEq(mkSub(end[g], begin[g]), num(int64(len(ak)))), prefixAt(ak)))
+	}
+	ex.sc.assert(mkImp(mkNot(isNil), mkOr(anyAlt...)))
+	for k, ak := range alts {
+		chosen := mkAnd(mkEq(mkSub(end[g], begin[g]), num(int64(len(ak)))), prefixAt(ak))
+		_ = el
+		for j := 0; j < k; j++ {
+			aj := alts[j]
+			if aj == ak {
+				continue
+			}
+			if len(aj) < len(ak) {
+				all := true
+				for i := len(aj); i < len(ak); i++ {
+					if !inClass(ak[i]) {
+						all = false
+					}
+				}
+				if !all {
+					continue // the rest after a_j may fail for another reason: no fact
+				}
+				ex.sc.assert(mkImp(mkAnd(mkNot(isNil), chosen), mkNot(prefixAt(aj))))
+				continue
+			}
+			ex.sc.assert(mkImp(mkAnd(mkNot(isNil), chosen), mkOr(mkNot(prefixAt(aj)),
+				mkCmp(">", mkAdd(begin[g], num(int64(len(aj)+minRest))), slen(s)))))
+		}
+	}
+}
+
+// enumPref lists the (small, finite) language of re in preference order.
+func enumPref(re *syntax.Regexp) ([]string, bool) {
+	switch re.Op {
+	case syntax.OpLiteral:
+		return []string{string(re.Rune)}, true
+	case syntax.OpEmptyMatch:
+		return []string{""}, true
+	case syntax.OpCharClass:
+		var out []string
+		for i := 0; i+1 < len(re.Rune); i += 2 {
+			if re.Rune[i+1]-re.Rune[i] > 8 || re.Rune[i+1] > 127 {
+				return nil, false
+			}
+			for r := re.Rune[i]; r <= re.Rune[i+1]; r++ {
+				out = append(out, string(r))
+			}
+		}
+		return out, len(out) <= 16
+	case syntax.OpCapture:
+		return enumPref(re.Sub[0])
+	case syntax.OpAlternate:
+		var out []string
+		for _, sub := range re.Sub {
+			l, ok := enumPref(sub)
+			if !ok {
+				return nil, false
+			}
+			out = append(out, l...)
+		}
+		return out, len(out) <= 64
+	case syntax.OpQuest:
+		l, ok := enumPref(re.Sub[0])
+		if !ok {
+			return nil, false
+		}
+		if re.Flags&syntax.NonGreedy != 0 {
+			return append([]string{""}, l...), true
+		}
+		return append(l, ""), true
+	case syntax.OpConcat:
+		out := []string{""}
+		for _, sub := range re.Sub {
+			l, ok := enumPref(sub)
+			if !ok {
+				return nil, false
+			}
+			var nw []string
+			for _, a := range out {
+				for _, b := range l {
+					nw = append(nw, a+b)
+				}
+			}
+			out = nw
+			if len(out) > 64 {
+				return nil, false
+			}
+		}
+		return out, true
+	}
+	return nil, false
 }
 
 // classPred: membership of byte term b in a character class (ASCII classes only).
@@ -1223,4 +1362,18 @@ func reMinLen(re *syntax.Regexp) int {
 		return m
 	}
 	return 0
+}
+
+// interference: in a unit run with "interfere", a location declared atomic_only
+// may have been changed by another goroutine since this one last looked: before
+// every atomic access its value is replaced by an arbitrary one.
+func (ex *Exec) interference(st *State, lv *LValue) {
+	if !ex.interfere || lv.Kind != lvHeap {
+		return
+	}
+	nav := navigate(lv.Root, lv.Path)
+	if _, ok := ex.atomicOnly[compH(lv.Root, nav.lo)]; !ok {
+		return
+	}
+	ex.store(st, lv, ex.freshVal(st, lv.T, "interf"))
 }
